@@ -417,6 +417,39 @@ func Run(r *fw.Run) {
 	}
 	r.Merge(l)
 
+	// mode bits beyond the four classes: a file is regular, a directory, a symbolic link or irregular; other
+	// bits (permissions, setuid, sticky, append-only, which kind of irregular) must not matter
+	{
+		l := fw.NewLocal()
+		type mv struct{ variant, rep os.FileMode }
+		mvs := []mv{
+			{0o001, 0o644}, {0o400, 0o644}, {0o777, 0o644}, {os.ModeSetuid | 0o755, 0o644}, {os.ModeSetgid | 0o644, 0o644}, {os.ModeSticky | 0o644, 0o644},
+			{os.ModeAppend | 0o644, 0o644}, {os.ModeExclusive | 0o644, 0o644}, {os.ModeTemporary | 0o644, 0o644},
+			{os.ModeDevice | 0o600, os.ModeNamedPipe | 0o644}, {os.ModeDevice | os.ModeCharDevice | 0o600, os.ModeNamedPipe | 0o644}, {os.ModeSocket | 0o600, os.ModeNamedPipe | 0o644}, {os.ModeIrregular | 0o600, os.ModeNamedPipe | 0o644},
+			{os.ModeSymlink | 0o000, os.ModeSymlink | 0o777}, {os.ModeDir | 0o000, os.ModeDir | 0o755}, {os.ModeDir | os.ModeSticky | 0o777, os.ModeDir | 0o755},
+		}
+		r.Bounds["mode_bit_variants"] = len(mvs)
+		for _, p := range []string{"a.go", "sub/x.go", "go.mod", "vendor/p/x.go", "LICENSE", "sub/go.mod"} {
+			for _, m := range mvs {
+				res := func(mode os.FileMode) string {
+					f := memfile.File{P: p, Data: []byte("module example.com/m\n"), Declared: -1, M: mode}
+					cf, err := modzip.CheckFiles([]modzip.File{f, memfile.Reg("other.go", "x")})
+					return fmt.Sprintf("valid=%v omitted=%v invalid=%v err=%v", cf.Valid, zipx.PathsOf(cf.Omitted), zipx.PathsOf(cf.Invalid), err != nil)
+				}
+				l.States++
+				l.Execs += 2
+				l.Transitions++
+				if a, b := res(m.variant), res(m.rep); a != b {
+					c := caseT{Kind: "mode", Paths: q([]string{p}), Modes: []int{int(m.variant)}}
+					r.Violation(c.key(), fmt.Sprintf("CheckFiles treats %q with mode %v differently from mode %v: %s vs %s", p, m.variant, m.rep, a, b), c)
+				} else {
+					l.Nontrivial++
+				}
+			}
+		}
+		r.Merge(l)
+	}
+
 	// tree form
 	scratch := r.Scratch()
 	treePool := []string{"cmd/vendor/vendor.go", "cmd/vendor/p/x.go", "Z/vendor/v.go", "a", "A", "a/b", "go.mod", "GO.MOD", "sub/go.mod", "sub/GO.MOD", "sub/x.go", "sub/deep/y.go", "sub/deep/go.mod", "vendor/modules.txt", "vendor/x.go", "vendor/p/x.go", "pkg/vendor/vendor.go", "pkg/vendor/p/x.go", "LICENSE", ".hg_archival.txt", ".git", "sub/.hg", ".gitignore", "con", "é", "K", "k", "\u212a", "a b", "a:b", "x.", "sub/go.mod/n.txt", "go.mod/n.txt", "sub/vendor/go.mod/n.txt"}
